@@ -60,6 +60,7 @@ func main() {
 				return // a replay runs one batch: the coverage floors below are for whole runs
 			}
 			c.Require("histories", 100)
+			c.Require("max.prodscale_stored_lines", 10000)
 			c.Require("printf.fresh_fits", 500)
 			c.Require("printf.fresh_evicts", 200)
 			c.Require("printf.repeat", 200)
@@ -95,6 +96,9 @@ func plan(tier string, seed int64) []run.Batch {
 	}
 	if tier == "thorough" {
 		// many short children: a loaded machine must not push one into the watchdog
+		for i := 0; i < 4; i++ {
+			add("prodscale", []string{"", "race"}[i%2], 1, i)
+		}
 		for i := 0; i < 16; i++ {
 			add("seq", "race", 1250, i)
 		}
@@ -109,6 +113,7 @@ func plan(tier string, seed int64) []run.Batch {
 		}
 		return bs
 	}
+	add("prodscale", "", 1, 0)
 	for i := 0; i < 8; i++ {
 		add("seq", "race", 500, i)
 	}
@@ -126,6 +131,8 @@ func plan(tier string, seed int64) []run.Batch {
 
 func child(b run.Batch, r *ev.Result) {
 	switch b.Kind {
+	case "prodscale":
+		childProdScale(b, r)
 	case "seq":
 		childSeq(b, r)
 	case "conc":
